@@ -13,6 +13,8 @@ CLAIMED["C04"]=("one capped proportion (power x factor / current value incl. unb
   "dataflow-shape and comparison-class rules over type-checked AST; store effect summaries; cache-context typestate", "4/C04")
 CLAIMED["C18"]=("per key family: export/import coverage of every live-written family, decode-type and key-constructor agreement between writers, exporters and importers, completeness of import literals, module init order vs cross-module reads",
   "SSA key-family resolver + store effect summaries over the VTA call graph; sibling agreement over families", "4/C18")
+CLAIMED["C16"]=("per queue: append reads/writes its own family at one epoch; promote-then-clear in the epoch hook and apply-then-clear in EndBlock are unconditional and ordered; scheduling sites write queue, reverse lookup and hold consistently; completion epoch formula; hold-decision exits and the opt-out arm's epoch source",
+  "effect-typed call matching (which family a call touches) + structured ordering/conditionality rules over type-checked AST", "4/C16")
 NA={}
 def main():
     checks=[]
